@@ -227,6 +227,24 @@ func (w *walker) walkFile(f *ast.File) {
 					w.markWriteThrough(v.Args[0])
 				}
 			}
+			// x.f.M() where M has a pointer receiver and x.f (a field or a package variable, not a pointer) holds a value of a
+			// type from ANOTHER package (bytes.Buffer, strings.Builder, ...): the method works on x.f's memory through &x.f, and
+			// its body is not instrumented. Counted as a write of x.f (a mutex of the sync shim is the scheduler's business).
+			if sel, ok := v.Fun.(*ast.SelectorExpr); ok {
+				if s, ok := w.info.Selections[sel]; ok && s.Kind() == types.MethodVal {
+					if fn, ok := s.Obj().(*types.Func); ok && fn.Pkg() != nil && fn.Pkg() != w.pkg && fn.Pkg().Path() != "sync" {
+						if sig, ok := fn.Type().(*types.Signature); ok && sig.Recv() != nil {
+							if _, ptrRecv := sig.Recv().Type().(*types.Pointer); ptrRecv {
+								if tv, ok := w.info.Types[sel.X]; ok {
+									if _, isPtr := tv.Type.Underlying().(*types.Pointer); !isPtr && tv.Addressable() {
+										w.markWrite(sel.X)
+									}
+								}
+							}
+						}
+					}
+				}
+			}
 		case *ast.UnaryExpr:
 			if v.Op == token.AND {
 				// &x.f : the address escapes; accesses through it are not attributable. Do not wrap the operand itself
@@ -236,6 +254,14 @@ func (w *walker) walkFile(f *ast.File) {
 		case *ast.SelectorExpr:
 			// x.f.g where x.f is a struct VALUE: x.f is only an address computation
 			base := unparen(v.X)
+			if s, isSel := w.info.Selections[v]; isSel && s.Kind() != types.FieldVal {
+				if fn, ok := s.Obj().(*types.Func); ok && fn.Pkg() != nil && fn.Pkg() != w.pkg && fn.Pkg().Path() != "sync" {
+					// x.f.M() with M from another package: the call uses x.f itself (a copy for a value receiver, written through
+					// &x.f for a pointer receiver: see CallExpr). Methods of this package are instrumented inside, for them
+					// x.f stays an address computation.
+					break
+				}
+			}
 			if tv, ok := w.info.Types[base]; ok {
 				if _, isStruct := tv.Type.Underlying().(*types.Struct); isStruct {
 					w.skip[base] = true
